@@ -292,3 +292,5 @@ def run(P, R, tier):
     flds = fields.init_fields_of(P, "IVectorStats", ("dim_c", "dim_d", "dim_t"))
     fields.check_add(P, R, "IVectorStats", flds, rule="FIELDS.add[IVectorStats]")
     check_prepare(P, R)
+    from ..engines import idx as _idx
+    _idx.check_class_select(P, R, "factor_analysis:FactorAnalysisBase._get_statistics_by_class_id")
